@@ -1,4 +1,4 @@
 #!/bin/bash
 # runs the owning property's quick check against every seeded change; prints a table
 cd "$(dirname "$0")/.."
-for d in seeded/*/; do p=$(basename $d); p=${p%b}; p=${p%c}; p=${p%d}; r=$(selftest/run_mutant.sh $d/patch.diff $p 2>&1 | grep "^exit=" | tail -1); echo "seed $(basename $d) $r"; done
+for d in seeded/*/; do p=$(basename $d); p=${p%b}; p=${p%c}; p=${p%d}; p=${p%e}; r=$(selftest/run_mutant.sh $d/patch.diff $p 2>&1 | grep "^exit=" | tail -1); echo "seed $(basename $d) $r"; done
